@@ -105,6 +105,17 @@ func plantChunk(base string, id desync.ChunkID, content []byte, uncompressed boo
 	}
 }
 
+// plantRaw writes obj as it is into the slot of the given format.
+func plantRaw(base string, id desync.ChunkID, obj []byte, uncompressed bool) {
+	p := chunkPath(base, id, uncompressed)
+	if err := os.MkdirAll(filepath.Dir(p), 0o755); err != nil {
+		panic(err)
+	}
+	if err := os.WriteFile(p, obj, 0o644); err != nil {
+		panic(err)
+	}
+}
+
 // readPlanted returns the plain content of the chunk file in the given format, ok=false if absent.
 func readPlanted(base string, id desync.ChunkID, uncompressed bool) (content []byte, ok bool, err error) {
 	b, err := os.ReadFile(chunkPath(base, id, uncompressed))
